@@ -50,6 +50,84 @@ pub enum Case {
     /// is a line like any other - rejected, no effect, no panic - and the lines around it keep
     /// their meaning (`place`: where in the line the bytes go, `raw`: which bytes)
     BadBytes { before: Vec<String>, line: String, place: u8, raw: u8, after: Vec<String> },
+    /// a long run of one command that is rejected, blank or without effect, then a short tail:
+    /// the session means what the tail means (`via`: 0 stdin, one per line; 1 stdin, `;`-joined on
+    /// one line; 2 `--command`, one per line; 3 `--command`, `;`-joined) - through the real binary
+    LongRun { unit: String, count: u32, via: u8 },
+}
+
+/// Units of a long run: rejected by the parser, rejected when executed, blank, or inspection only.
+pub const LONG_UNITS: &[&str] = &["bogus", "print 99999", "p !", "break", "move r1", "goto nowhere", "", " ", "registers", "print r1", "break list", "eval", "move r9 1", "step into x"];
+const LONG_TAIL: &str = "move r1 x5A5A\nprint r1\nstep\nregisters\nexit";
+
+fn judge_long_run(unit: &str, count: u32, via: u8) -> Obs {
+    let mut obs = Obs::default();
+    obs.key = hash_of(&("long-run", unit, count, via));
+    obs.nontrivial = count >= 1000;
+    obs.label("long-run-of-one-command-through-real-binary");
+    obs.label(match count {
+        0..=999 => "run-shorter-than-1000",
+        1000..=65_535 => "run-of-1000-to-65535",
+        _ => "run-longer-than-65535",
+    });
+    let semi = via % 2 == 1;
+    let by_arg = via % 4 >= 2;
+    let sep = if semi { ";" } else { "\n" };
+    obs.show = Some(format!("{count} x {unit:?} joined by {sep:?}, then {LONG_TAIL:?}, through {}", if by_arg { "--command" } else { "standard input" }));
+    let script = |n: u32| {
+        let mut s = String::with_capacity((unit.len() + 1) * n as usize + 64);
+        for _ in 0..n {
+            s.push_str(unit);
+            s.push_str(sep);
+        }
+        if semi {
+            s.push('\n');
+        }
+        s.push_str(LONG_TAIL);
+        s
+    };
+    let dir = crate::cli::TempDir::new();
+    dir.write("p.asm", NAME_PROGRAM.as_bytes());
+    let go = |text: &str| {
+        if by_arg {
+            crate::cli::lace(&["debug", "p.asm", "--minimal", "--command", text], dir.path(), &[], false, 240)
+        } else {
+            crate::cli::lace(&["debug", "p.asm", "--minimal"], dir.path(), text.as_bytes(), false, 240)
+        }
+    };
+    let tail = go(LONG_TAIL);
+    let one = go(&script(1));
+    let long = go(&script(count));
+    if tail.timed_out || one.timed_out || long.timed_out {
+        obs.excluded = Some("watchdog");
+        return obs;
+    }
+    if tail.panicked() || one.panicked() {
+        obs.set_fail("C14:debugger-crashes", format!("tail alone: {}\none unit: {}", tail.brief(), one.brief()));
+        return obs;
+    }
+    if long.panicked() {
+        obs.set_fail("C14:debugger-crashes-on-long-script", format!("{count} x {unit:?}: exit {:?} signal {:?}, last output {:?}\nonce: {}", long.code, long.signal, clip(&String::from_utf8_lossy(&long.stderr[long.stderr.len().saturating_sub(300)..])), one.brief()));
+        return obs;
+    }
+    // what one unit prints: the session with one unit minus the session without
+    let unit_err = one.stderr.strip_suffix(&tail.stderr[..]).map(|x| x.to_vec());
+    let mut ok = long.code == tail.code && long.stdout == tail.stdout && long.stderr.ends_with(&tail.stderr);
+    if ok && !semi {
+        if let Some(u) = &unit_err {
+            ok = long.stderr.len() == u.len() * count as usize + tail.stderr.len() && long.stderr[..long.stderr.len() - tail.stderr.len()].chunks(u.len().max(1)).all(|c| c == &u[..]);
+        }
+    }
+    if !ok {
+        obs.set_fail(
+            "C14:long-script-changes-meaning",
+            format!(
+                "{count} x {unit:?} before the tail: exit {:?}, stdout {:?}, debugger output ends {:?}\nthe tail alone: {}\none unit before the tail: {}",
+                long.code, clip(&String::from_utf8_lossy(&long.stdout)), clip(&String::from_utf8_lossy(&long.stderr[long.stderr.len().saturating_sub(400)..])), tail.brief(), one.brief()
+            ),
+        );
+    }
+    obs
 }
 
 const SENT_R1: u16 = 0x5A5A;
@@ -565,6 +643,7 @@ pub fn judge_case(c: &Case) -> Obs {
         Case::Name { entry, variant, is_candidate, args } => judge_name(*entry, variant, *is_candidate, args),
         Case::Transport { commands, split, sep_arg, sep_stdin, decorate } => judge_transport(commands, *split, *sep_arg, *sep_stdin, *decorate),
         Case::BadBytes { before, line, place, raw, after } => judge_bad_bytes(before, line, *place, *raw, after),
+        Case::LongRun { unit, count, via } => judge_long_run(unit, *count, *via),
         Case::PrintDefault => {
             let mut obs = Obs::default();
             obs.nontrivial = true;
@@ -600,7 +679,8 @@ impl Prop for C14 {
          Oracle RefCmd (doc comment of the integer parser, NaiveType table, help.txt): value accepted <=> documented integer in [-32768, 65535], R1 = v mod 2^16; location => PC / breakpoint list equals the resolved address; everything else => an error is reported and nothing changes; never a panic. \
          (b) every command name, alias and listed misspelling (one- and two-word forms) in 3 random letter cases: alias => transcript, output, exit and final state identical to the canonical name in a fixed scenario; misspelling => CommandError and no effect. `print` without argument = `print ^`. \
          (c) generated scripts of 1-8 commands delivered through --command, through stdin, or split at every point, with `;` or newline as separator, empty commands and surrounding blanks: stdout, stderr, exit status and final state identical to the plain delivery (in-process through the real CommandReader, plus a sample through the real binary with a pipe as stdin). \
-         (d) scripts on standard input in which one line contains bytes that are not UTF-8 (lone / truncated / surrogate sequences at the start, in the middle or at the end of a command; a character of the command, or a `;` / newline joining two commands, spelled as an over-long 2-, 3- or 4-byte sequence): no panic, and the session equals the one with an invalid textual line in its place. Non-trivial: token with a sign/prefix and a digit; name variant; script split strictly inside. Distinct = token batch / name / (script, split)."
+         (d) scripts on standard input in which one line contains bytes that are not UTF-8 (lone / truncated / surrogate sequences at the start, in the middle or at the end of a command; a character of the command, or a `;` / newline joining two commands, spelled as an over-long 2-, 3- or 4-byte sequence): no panic, and the session equals the one with an invalid textual line in its place. \
+         (e) through the real binary: runs of 1,000 / 30,000 / 70,000 (thorough: 300,000) repetitions of one command that is rejected, blank or inspection-only (14 units), one per line or `;`-joined, on standard input or in `--command`, followed by a short tail: no crash, and exit status, program output and the tail's debugger output equal those of the tail alone (newline-separated: the whole debugger output is the unit's output repeated). Non-trivial: token with a sign/prefix and a digit; name variant; script split strictly inside. Distinct = token batch / name / (script, split)."
     }
     fn assumptions(&self) -> Vec<String> {
         vec![
@@ -694,6 +774,28 @@ impl Prop for C14 {
         });
         drive(ctx, rep, "transport-cli", strat, k, &mut |c: &Case| judge_case(c));
         std::env::remove_var("VERIF_MAX_SHRINK");
+        // (e) long runs of one command, through the real binary (its real main-thread stack)
+        let counts: &[u32] = ctx.tier.pick(&[1000, 30_000, 70_000][..], &[1000, 30_000, 70_000, 300_000][..]);
+        for (ui, unit) in LONG_UNITS.iter().enumerate() {
+            for (ci, &count) in counts.iter().enumerate() {
+                // quick: each (unit, count) through one delivery, rotating; thorough: all four
+                for via in 0..4u8 {
+                    if ctx.tier.pick(via as usize != (ui + ci) % 4, false) {
+                        continue;
+                    }
+                    // (one `--command` argument holds at most 128 KiB)
+                    if via >= 2 && (unit.len() + 1) * count as usize > 120_000 {
+                        continue;
+                    }
+                    n += 1;
+                    if !ctx.mine(n) {
+                        continue;
+                    }
+                    judge_one(ctx, rep, &Case::LongRun { unit: unit.to_string(), count, via }, &mut |c| judge_case(c));
+                }
+            }
+        }
+        rep.exhaustive.push(format!("long runs: {} units x {:?} repetitions x deliveries, through the real binary", LONG_UNITS.len(), counts));
     }
     fn needs_cli(&self) -> bool {
         true
